@@ -31,6 +31,20 @@ Theorem C01_boundary_prims_faithful :
 Proof. exact slicing_prims_faithful. Qed.
 Print Assumptions C01_boundary_prims_faithful.
 
+Theorem C01_boundary_found_positions :
+  forall s c i, utf8_valid s = true -> c < 128 -> (findN c s = Some i \/ rfindN c s = Some i) ->
+    (cut_ok s i /\ cut_ok s (i + 1)) /\
+    slice_from_cb s i = slice_from s i /\ slice_from_cb s (i + 1) = slice_from s (i + 1) /\
+    slice_to_cb s i = slice_to s i /\ slice_to_cb s (i + 1) = slice_to s (i + 1) /\
+    str_split_off_cb s i = str_split_off s i /\ str_split_off_cb s (i + 1) = str_split_off s (i + 1) /\
+    (forall x, str_insert_cb s i x = str_insert s i x) /\ (forall x, str_insert_cb s (i + 1) x = str_insert s (i + 1) x) /\
+    str_remove_cb s i = str_remove s i.
+Proof.
+  intros s c i Hs Hc H. split; [|exact (slice_at_found_faithful s c i Hs Hc H)].
+  destruct H; [eapply find_cut_ok|eapply rfind_cut_ok]; eassumption.
+Qed.
+Print Assumptions C01_boundary_found_positions.
+
 Theorem C01_boundary_panic_inside_char :
   forall s i, is_char_boundary s i = false ->
     slice_from_cb s i = Panic /\ slice_to_cb s i = Panic /\ str_split_off_cb s i = Panic /\
